@@ -235,9 +235,54 @@ def seed_plumbing(seed: int, none_seed: bool) -> bool:
     return hx.end(True)
 
 
+class _LogSys(Core.System):
+    def execute(self):
+        self.model.environment.components.setdefault("log", []).append(self.id)
+
+
+_SYS_IDS = ["alpha", "beta", "gamma", "delta", "epsilon"]
+
+
+def system_order(p0: int, p1: int, p2: int, p3: int, p4: int, j: int, k: int) -> bool:
+    """
+    pre: 0 <= j < hx.P['n'] and 0 <= k < hx.P['n']
+    post: _
+    """
+    # the order in which systems run is part of the trajectory: after removals and re-registrations it is a function of
+    # priorities and registration order alone - under EVERY interpreter hash seed (each partition pins PYTHONHASHSEED
+    # for its worker process; string ids hash differently under each)
+    hx.begin()
+    n = hx.P['n']
+    m = Model(seed=1, logger=NULL_LOGGER)
+    ps = [p0, p1, p2, p3, p4][:n]
+    ss = [_LogSys(_SYS_IDS[i], m, priority=ps[i]) for i in range(n)]
+    ref = []
+    for s_ in ss:
+        m.systems.add_system(s_)
+        pos = len([x for x in ref if x.priority >= s_.priority])
+        ref.insert(pos, s_)
+    gone = hx.pick(ss, j)
+    m.systems.remove_system(gone.id)
+    ref = [x for x in ref if x is not gone]
+    if j != k:
+        gone2 = hx.pick(ss, k)
+        m.systems.remove_system(gone2.id)
+        ref = [x for x in ref if x is not gone2]
+        m.systems.add_system(gone2)                   # re-registered: counts as newly registered
+        ref.insert(len([x for x in ref if x.priority >= gone2.priority]), gone2)
+        hx.reach('reregistered')
+    m.execute()
+    got = m.environment.components.get("log", [])
+    if got != [x.id for x in ref]:
+        return hx.end(hx.fail("order of systems after removal depends on something other than priority and registration order",
+                              got=got, exp=[x.id for x in ref], hashseed=hx.P.get("_env")))
+    return hx.end(True)
+
+
 BOUNDS = {"agents": "<= 3", "draws": "<= 3 from the model stream, all non-negative ints", "global-generator stream": "all non-negative ints",
           "set iteration order": "every permutation (symbolic Lehmer code, digits 0..7)", "tags": "0/1"}
-OUTSIDE = ["that random.Random(seed) itself is deterministic (C implementation of the Mersenne Twister)",
+OUTSIDE = ["hash seeds other than the pinned ones in `system_order` (each is decided symbolically over priorities, the seeds are enumerated)",
+           "that random.Random(seed) itself is deterministic (C implementation of the Mersenne Twister)",
            "hash-order dependence through set literals/comprehensions or through third-party containers (only set()/frozenset() calls are havocked)",
            "fresh interpreter vs. batch worker process: a worker builds its model from its kwargs alone (decided in C15.serial)",
            "user systems that themselves call the global generators"]
@@ -260,6 +305,11 @@ def obligations(tier):
     return [
         X("draws_only_from_model", draws_only_from_model, parts=parts, labels=("real_choice",), timeout=1500, encoded=enc,
           bounds={"agents": "2..3"}),
+        X("system_order", system_order, parts=[{"n": n, "_env": {"PYTHONHASHSEED": str(hs)}} for n in ((3, 4) if tier == "quick" else (3, 4, 5))
+                                               for hs in ((1, 2, 3) if tier == "quick" else (1, 2, 3, 4, 5, 6))],
+          labels=("reregistered",), timeout=600, group=1, encoded=(Core.SystemManager.add_system, Core.SystemManager.remove_system,
+                                                                    Core.SystemManager.execute_systems),
+          bounds={"systems": "3..%d with string ids" % (4 if tier == "quick" else 5), "PYTHONHASHSEED": "pinned per partition: 1..%d" % (3 if tier == "quick" else 6)}),
         X("seed_plumbing", seed_plumbing, parts=[{"positional": True}, {"positional": False}], labels=("seed_zero", "no_seed"),
           timeout=300, encoded=(Model.__init__,)),
     ]
